@@ -68,6 +68,7 @@ func runC18(c *core.Ctx) {
 	runR186(c)
 	runR188(c, runR187(c))
 	runR189(c)
+	runR1810(c)
 
 	// ---- R18.2
 	lockKey := "T:" + core.Mod + "/metrics.hist.lock*"
